@@ -616,6 +616,27 @@ pub fn tx_monitors(h: &Hist, ms: &mut MonState, b: &Obs, line: &str, res: &str, 
                     let gone = !a.positions.iter().any(|q| q.identifier == tx.args[0]);
                     out.push(format!("mon_withdrawpos {} {} {} {} {} {} {}", p.lp_asset.amount, delta(b, a, &owner, &lp), delta(b, a, "fc", &lp), owners,
                         -delta(b, a, "fm", &lp), (emergency && !expired) as u8, gone as u8));
+                    // C09: WHO shares the penalty — exactly the distinct owners of the farms on this LP token that are
+                    // active now (started, not expired), recomputed here from the farms of the before-state
+                    if emergency && !expired {
+                        if let (Some(cur), Some(cfg)) = (b.epoch, h.w.app.wrap().query_wasm_smart::<mantra_dex_std::farm_manager::Config>(h.w.a("fm"), &mantra_dex_std::farm_manager::QueryMsg::Config {}).ok()) {
+                            let mut expected: Vec<String> = vec![];
+                            for f in b.farms.iter().filter(|f| f.lp_denom == p.lp_asset.denom && f.start_epoch <= cur) {
+                                let r: Result<mantra_dex_std::epoch_manager::EpochResponse, _> = h.w.app.wrap()
+                                    .query_wasm_smart(h.w.a("em"), &mantra_dex_std::epoch_manager::QueryMsg::Epoch { id: f.preliminary_end_epoch + 1 });
+                                let exp = match r { Ok(r) => f.farm_asset.amount == f.claimed_amount || r.epoch.start_time.nanos() + cfg.farm_expiration_time * 1_000_000_000 < b.now_ns, Err(_) => false };
+                                let o = h.w.n(f.owner.as_str());
+                                if !exp && !expected.contains(&o) { expected.push(o); }
+                            }
+                            let others: Vec<&str> = ["u1", "u2", "u3", "u4", "owner", "out"].into_iter().filter(|u| *u != owner).collect();
+                            let exp_others: Vec<&&str> = others.iter().filter(|u| expected.contains(&u.to_string())).collect();
+                            let paid_exp = exp_others.iter().filter(|u| delta(b, a, u, &lp) > 0).count();
+                            let paid_unexp = others.iter().filter(|u| !expected.contains(&u.to_string()) && delta(b, a, u, &lp) != 0).count();
+                            let amounts: Vec<i128> = exp_others.iter().map(|u| delta(b, a, u, &lp)).collect();
+                            let equal = amounts.windows(2).all(|w| w[0] == w[1]);
+                            out.push(format!("mon_emergency_owners {} {} {} {}", exp_others.len(), paid_exp, paid_unexp, equal as u8));
+                        }
+                    }
                 }
             }
         }
@@ -638,6 +659,14 @@ pub fn tx_monitors(h: &Hist, ms: &mut MonState, b: &Obs, line: &str, res: &str, 
                         out.push(format!("mon_farm_autoclose {} {} {} {}", remaining, r.epoch.start_time.nanos(), c.farm_expiration_time, b.now_ns));
                     }
                 }
+            }
+        }
+        // C11: after an accepted CreateFarm the LP token has at most the configured number of farms
+        if ok && tx.kind == "createfarm" {
+            if let Some(c) = h.w.app.wrap().query_wasm_smart::<mantra_dex_std::farm_manager::Config>(h.w.a("fm"), &mantra_dex_std::farm_manager::QueryMsg::Config {}).ok() {
+                let lp = h.w.rd(&tx.args[0]);
+                let n = a.farms.iter().filter(|f| f.lp_denom == lp).count();
+                out.push(format!("mon_farm_limit {} {}", n, c.max_concurrent_farms));
             }
         }
         // C11: an expansion adds exactly the attached amount and extends the end by amount / emission rate epochs
@@ -667,7 +696,15 @@ pub fn tx_monitors(h: &Hist, ms: &mut MonState, b: &Obs, line: &str, res: &str, 
                 out.push(format!("mon_close_refunds {} {} {}", groups.len(), missing, ms.fault_active as u8));
             }
         }
-        // C11: an explicit close refunds exactly the unclaimed remainder to the farm's owner and to nobody else
+        // C15: whoever closes a farm is its owner or the contract owner (whatever the farm's state: live, ended, expired)
+        if tx.kind == "closefarm" && !ms.fault_active {
+            if let Some(f) = b.farms.iter().find(|f| f.identifier == tx.args[0]) {
+                let is_farm_owner = h.w.n(f.owner.as_str()) == tx.sender;
+                let is_owner = b.text.contains(&format!("fm={}/", tx.sender));
+                out.push(format!("mon_auth_fp closefarm {} {} {} 0 0", ok as u8, is_owner as u8, is_farm_owner as u8));
+            }
+        }
+        // C11: explicit close refunds exactly the unclaimed remainder to the farm's owner and to nobody else
         if ok && tx.kind == "closefarm" && !ms.fault_active {
             if let Some(f) = b.farms.iter().find(|f| f.identifier == tx.args[0]) {
                 let d = h.w.cd(&f.farm_asset.denom);
